@@ -5,7 +5,7 @@
 # stores everything under /verif/seeded/<Cxx><a|b>/.
 set -u
 prop=$1; v=$2; shift 2
-src=/tmp/wt-$prop/SEEDED/$v
+src=${WT_PREFIX:-/tmp/wt-}$prop/SEEDED/$v
 id=${prop}${v}
 out=/verif/seeded/$id
 W=/tmp/wt-verify
